@@ -395,7 +395,7 @@ def run_property(prop, tier, seed, nproc=None, only=None, verbose=False):
     seen_known = set()
     groups, suppressed, a_unconfirmed = {}, [], []
     for rf in refuted:
-        if rf['engine'] == 'A' and rf['kind'] == 'scaffolding':
+        if rf['engine'] == 'A' and rf['kind'] == 'scaffolding' and not (isinstance(rf['detail'], dict) and rf['detail'].get('inputs')):
             scaffolding.append(rf)
             continue
         kf = match_known(known, prop, rf['scen'], rf['label'], rf['params'])
@@ -422,7 +422,7 @@ def run_property(prop, tier, seed, nproc=None, only=None, verbose=False):
             # an Engine-A counter-model may be an artefact of finite quantifier instantiation or describe an
             # unreachable loop-head state: without a reproducing input it is an undecided obligation, not a violation
             groups[gkey] -= 1
-            a_unconfirmed.append(rf)
+            (scaffolding if rf['kind'] == 'scaffolding' else a_unconfirmed).append(rf)
             continue
         violations.append((rf, path, reproduced))
 
